@@ -77,6 +77,18 @@ CHECKS = {
         "that is literally `n` are only judged by the acyclic clause (constant folding removes edges there). Bounds: <=12 options.",
         "DESIGN.md 3/C09",
     ),
+    "C04": (
+        "exploration",
+        "differential testing of the two parsers on grammar-generated sources in drawn rendering styles, plus the shipped fixtures (Hypothesis)",
+        "Trees generated from the documented grammar are rendered in a drawn style (indentation, prompt forms, option order, comments, "
+        "continuations, sourced files, macros, env strings, one 'tier-B' string class per case) and loaded with parser 1 and parser 2: "
+        "both must reject with a KconfigError or produce equal menu-tree signatures and equal sdkconfig/header/JSON under generated "
+        "assignments; every Kconfig fixture under /repo/test goes through the same oracle in every run. Differential exploration is the "
+        "natural oracle for 'two implementations of one language'.",
+        "Trusted: vk/treesig.py (what 'same tree' means: expr_str of every expression, quoting of number-looking constants ignored, "
+        "file/line ignored). Known differences are listed per root cause in known_findings.json. Bounds: <=12 options, <=3 files.",
+        "DESIGN.md 3/C04",
+    ),
 }
 
 NOT_YET = {}
